@@ -41,7 +41,8 @@ def plan(tier, seed):
     idx = list(range(len(targets)))
     specs = [{"what": "targets", "targets": part} for part in C.split_round_robin(idx, 24)]
     nsweep = 8
-    # the sweep covers all 65536 pairs in thorough; a seeded 1/16 slice in quick
+    # the sweep covers all 65536 pairs x 16 configurations in thorough; in quick a seeded 1/16 slice
+    # and the structure-like pairs x 16 configurations, every other pair in one configuration
     for i in range(nsweep):
         specs.append({"what": "sweep", "part": i, "of": nsweep})
     specs.append({"what": "race", "suites": ['parse']})
@@ -177,11 +178,20 @@ def run_shard(spec, ctx, acc):
     part, of = spec["part"], spec["of"]
     step = 16 if tier == "quick" else 1
     off = ctx["seed"] % step
+    # class/ID bytes that look like structure (sync characters, other protocols'
+    # preambles, line ends) get every configuration in both tiers
+    special = (0xB5, 0x62, 0x24, 0x47, 0xD3, 0x00, 0x0D, 0x0A, 0xFF)
     for v in range(part, 65536, of):
-        if step > 1 and (v // of) % step != off:
-            continue
         clsid = bytes([v >> 8, v & 0xFF])
         short = bytes([(v * 7 + ctx["seed"]) & 0xFF, v & 0xFF, (v >> 8) ^ 0x5A])[: 1 + v % 3]
+        if step > 1 and (v // of) % step != off and not (clsid[0] in special and clsid[1] in special):
+            # quick tier, outside the seeded slice: one configuration per pair, so
+            # that every one of the 65536 pairs is met at least once
+            payload, pk = ((b"", "empty"), (short, "random"))[(v >> 3) & 1]
+            case = _mk(clsid, payload, (v + ctx["seed"]) % 4, (v >> 2) & 1, pk, "sweep")
+            if core.handle(acc, core.checked(check, case), case, known):
+                return
+            continue
         for payload, pk in ((b"", "empty"), (short, "random")):
             for mode in (0, 1, 2, 3):
                 for bf in (0, 1):
